@@ -107,6 +107,8 @@ pub fn prof_c07(t: Tier) -> Profile {
     p.observer_churn = 2;
     // writes from inside node functions must not show in the running stabilise either
     p.writers = true;
+    // handlers that write, disallow and create observers (which must read NeverStabilised)
+    p.handler_actions = true;
     sized(p, t)
 }
 pub fn prof_c08(t: Tier) -> Profile {
